@@ -207,7 +207,7 @@ def run_job(job, work, tier, log):
         raise ToolProblem("job %s generated zero obligations" % job.name)
     # anonymous "assertion" obligations (loop-contract checks of for(;;) loops): fetch their expressions
     exprs = {}
-    if any((r.get("description") or "") == "assertion" for r in res):
+    if any((r.get("description") or "") == "assertion" or r.get("status") == "FAILURE" for r in res):
         rc_, out_, _, _ = sh(["cbmc", b, "--drop-unused-functions", "--show-properties", "--json-ui"], timeout=300)
         try:
             for x in json.loads(out_):
@@ -219,6 +219,8 @@ def run_job(job, work, tier, log):
     for r in res:
         if (r.get("description") or "") == "assertion" and exprs.get(r.get("property")):
             r["description"] = "loop contract / instrumentation assertion: " + exprs[r["property"]]
+        elif r.get("status") == "FAILURE" and exprs.get(r.get("property")) and "invariant" in (r.get("description") or ""):
+            r["description"] = (r.get("description") or "") + ": " + exprs[r["property"]]
         o = {"name": r.get("property"), "status": r.get("status"),
              "description": r.get("description"),
              "file": r.get("sourceLocation", {}).get("file"),
